@@ -24,6 +24,7 @@ CONSTANTS Descs,       \* set of description ids (positive naturals)
           ExportDescs, \* the descriptions an EXPORTED project can hold (its network file is the native reactions.naunet)
           GpuDescs,    \* the descriptions whose solver runs on the gpu device (their sources are other FILES: *.cu)
           BlankDescs,  \* the descriptions a BLANK project (`naunet new`: no network files, the empty network) can hold
+          InitRenderDescs, \* the descriptions `naunet init ... --render` reaches by command-line options alone (a subset of InitDescs)
           NewDesc,     \* the description `naunet new` writes (the defaults of BaseConfiguration), a member of BlankDescs
           PVariant     \* "asis" | seeded design variants
 InitDescs == (Descs \ ExportDescs) \ BlankDescs
@@ -43,6 +44,16 @@ InitCmd(d) ==
        THEN cfg' = d /\ summ' = 0
        ELSE UNCHANGED <<cfg, summ>>          \* "Project configure file exists. Overwrite?" -> no -> exit
   /\ UNCHANGED <<tree, patch>>
+
+(* naunet init <options of d> --render [--render-force]: ONE command that configures and then calls `render` on what it has just written;
+   refused as a whole (nothing rendered either) when a configuration file is already there *)
+InitRender(d, force) ==
+  /\ d \in InitRenderDescs
+  /\ IF cfg = 0 \/ PVariant = "init_render_overwrites"
+       THEN /\ cfg' = d
+            /\ IF tree = 0 \/ force THEN tree' = d /\ summ' = d ELSE UNCHANGED <<tree, summ>>
+       ELSE UNCHANGED <<cfg, tree, summ>>
+  /\ UNCHANGED patch
 
 (* naunet new <dir>: a blank project, only into a directory that does not exist or is empty (anything else: RuntimeError, nothing
    touched).  The directory of this model is non-empty exactly when something was configured, rendered or patched. *)
@@ -83,7 +94,7 @@ Export(d, ow) ==
        ELSE UNCHANGED <<cfg, tree, summ>>
   /\ UNCHANGED patch
 
-PNext == (\E d \in Descs : InitCmd(d) \/ Edit(d)) \/ NewCmd \/ (\E f \in BOOLEAN : Render(f)) \/ RenderPatch
+PNext == (\E d \in Descs : InitCmd(d) \/ Edit(d)) \/ NewCmd \/ (\E d \in InitRenderDescs, f \in BOOLEAN : InitRender(d, f)) \/ (\E f \in BOOLEAN : Render(f)) \/ RenderPatch
            \/ (\E d \in ExportDescs, ow \in BOOLEAN : Export(d, ow))
 PSpec == PInit /\ [][PNext]_pvars
 
